@@ -66,7 +66,7 @@ def r_none(): return {"c": "none", "v": vnone(), "n": 0, "path": []}
 
 FLAG_VALUES = [0, "", [], None, False, 1, "x", [0], True]
 INT_VALUES = [0, 1, 2, 7]
-BINOPS = ["add", "sub", "mul", "lt", "ge", "eq", "ne"]
+BINOPS = ["add", "sub", "mul", "lt", "ge", "eq", "ne", "floordiv", "mod"]
 
 
 class Gen:
@@ -219,13 +219,18 @@ class Gen:
                 if site["args"][0]["c"] == "const":
                     site["fn"], site["args"] = "mix", [self.unique_const()]
             else:
+                if op in ("floordiv", "mod"):
+                    b = r_const(rng.choice([1, 2, 3, 5]))      # a positive constant divisor: no division by zero
+                    if a["c"] == "const":
+                        a = rng.choice(self.ints)
                 site["kind"], site["fn"], site["args"] = "op", op, [a, b]
-                if op in ("add", "sub", "mul"):
+                site["aug"] = op in ("add", "sub", "mul", "floordiv", "mod") and a["c"] != "const" and rng.random() < 0.3
+                if op in ("add", "sub", "mul", "floordiv", "mod"):
                     self.ints.append(r_site(j))
             self.anys.append(r_site(j))
         elif c < 0.9:
             if self.ints:
-                site["kind"], site["fn"], site["args"] = "op", "neg", [rng.choice(self.ints)]
+                site["kind"], site["fn"], site["args"] = "op", rng.choice(["neg", "abs"]), [rng.choice(self.ints)]
                 self.ints.append(r_site(j))
             else:
                 site["fn"], site["args"] = "ident", [self.any_ref()]
